@@ -274,7 +274,7 @@ func runTriples(r *common.Run, st *stats) {
 	for i, g := range gs {
 		stores[i] = bqlm.NewStore(g)
 	}
-	var shapes int64
+	var shapes, nullJoin int64
 	common.ParallelFor(len(rc), func(i int) {
 		for j := range rc {
 			for bi, b := range rb {
@@ -285,9 +285,10 @@ func runTriples(r *common.Run, st *stats) {
 				o1.Optional, o2.Optional = true, true
 				for k, named := range bqlm.Namings([]bqlm.Clause{b, o1, o2}) {
 					if usesOptionalBinding(named) {
-						// joining on a binding that an earlier OPTIONAL may have left NULL is not
-						// defined by the property: not generated
-						continue
+						// the second OPTIONAL joins on a binding the first may have left NULL: a NULL agrees with
+						// no value (outer-join reading; every returned row is the union of a preceding solution
+						// and a match, or the solution with NULLs)
+						atomic.AddInt64(&nullJoin, 1)
 					}
 					q := &bqlm.Query{From: []string{"?g"}, Where: named, Proj: bqlm.SelectAll(named)}
 					atomic.AddInt64(&shapes, 1)
@@ -303,6 +304,7 @@ func runTriples(r *common.Run, st *stats) {
 		}
 	})
 	r.Set("two_optional_shapes", int(shapes))
+	r.Set("two_optional_shapes_joining_on_a_possibly_null_binding", int(nullJoin))
 }
 
 func replay(raw json.RawMessage) (bool, string) {
@@ -372,6 +374,7 @@ func main() {
 	ex := bqlm.Namings([]bqlm.Clause{reprBases()[0], o})
 	r.Sample(map[string]interface{}{"statement": (&bqlm.Query{From: []string{"?g"}, Where: ex[len(ex)-1], Proj: bqlm.SelectAll(ex[len(ex)-1])}).Render()})
 	r.Assume("reference: OPTIONAL = left outer join in textual order, NULL for the optional clause's new bindings when nothing matches")
+	r.Assume("a later OPTIONAL clause that shares a binding an earlier OPTIONAL left NULL: a NULL agrees with no value (the row appears once, the clause's new bindings NULL); a reading in which NULL agrees with every value is not accepted, because the returned row would show NULL where the match has a value")
 	r.Assume("latitude: inside OPTIONAL a triple to which an extraction cannot apply may count as no match or as a match with that extraction NULL (docs/bql.md vs C03); both results are accepted")
 	r.Finish()
 }
